@@ -263,6 +263,73 @@ def insPair (x : Nat × Nat) : List (Nat × Nat) → List (Nat × Nat)
   | y :: tl => if x.1 < y.1 || (x.1 == y.1 && x.2 ≤ y.2) then x :: y :: tl else y :: insPair x tl
 def sortPairs (l : List (Nat × Nat)) : List (Nat × Nat) := l.foldr insPair []
 
+/-! ## positional reader on lexer tokens (what a SMILES reader sees: atoms are numbered in order of appearance) -/
+
+structure PState where
+  count : Nat := 0                     -- atoms read so far; the next atom gets this index
+  prev : Option Nat := none
+  stack : List Nat := []
+  pending : Bool := false
+  afterDot : Bool := false
+  opened : List (Nat × Nat) := []      -- closure number → atom index
+  edges : List (Nat × Nat) := []       -- reversed
+  deriving Repr, Inhabited
+
+def pAtom (st : PState) : PState :=
+  let edges := match st.prev, st.afterDot with
+    | some p, false => (p, st.count) :: st.edges
+    | _, _ => st.edges
+  { st with count := st.count + 1, prev := some st.count, pending := false, afterDot := false, edges := edges }
+
+def pstep (st : PState) : LTok → Except RErr PState
+  | .bracket _ => .ok (pAtom st)
+  | .plain _ => .ok (pAtom st)
+  | .bond _ => if st.pending then .error .doubleBond2 else .ok { st with pending := true }
+  | .closure c =>
+    match st.prev with
+    | none => .error .closureOnNothing
+    | some cur =>
+      match st.opened.lookup c with
+      | some a =>
+        if a == cur then .error .selfClosure
+        else .ok { st with opened := st.opened.filter (·.1 != c), pending := false, edges := (a, cur) :: st.edges }
+      | none => .ok { st with opened := st.opened ++ [(c, cur)], pending := false }
+  | .lpar =>
+    match st.prev with
+    | none => .error .popEmpty
+    | some p => if st.pending then .error .bondBeforeParen else .ok { st with stack := p :: st.stack }
+  | .rpar =>
+    match st.stack with
+    | [] => .error .popEmpty
+    | p :: tl => if st.pending then .error .bondBeforeParen else .ok { st with prev := some p, stack := tl }
+  | .dot => .ok { st with afterDot := true }
+
+def prun : PState → List LTok → Except RErr PState
+  | st, [] => .ok st
+  | st, t :: ts => match pstep st t with
+    | .error e => .error e
+    | .ok st' => prun st' ts
+
+/-- number of atoms and the bonds (pairs of atom indices, first = the earlier atom) denoted by a lexed SMILES body -/
+def readL (ts : List LTok) : Except RErr (Nat × List (Nat × Nat)) :=
+  match prun {} ts with
+  | .error e => .error e
+  | .ok st =>
+    if !st.stack.isEmpty then .error .parenOpenAtEnd
+    else if !st.opened.isEmpty then .error .closureOpenAtEnd
+    else if st.pending then .error .bondAtEnd
+    else .ok (st.count, st.edges.reverse)
+
+/-- text → lexer → positional reader: `n;i-j,…` with the pairs sorted (atom indices in reading order) -/
+def readBody (body : Str) : String :=
+  match lex body with
+  | none => "lex-error"
+  | some lt =>
+    match readL lt with
+    | .error _ => "read-error"
+    | .ok (n, es) =>
+      s!"{n};" ++ ",".intercalate ((sortPairs (es.map fun (a, b) => undirected a b)).map fun (a, b) => s!"{a}-{b}")
+
 /-- all bonds of the molecule as sorted undirected pairs -/
 def molPairs (m : Mol) : List (Nat × Nat) := sortPairs (m.bonds.map fun (a, b, _) => undirected a b)
 
